@@ -14,13 +14,15 @@ Definition Tnats (l : list nat) : T := Tl (map Tnat (sort l)).
 
 (* tables as the harness reads them: live clients, non-empty buffers of live clients (lengths), buffer keys that are
    not clients, closeq, poller read / write / targets / map — each sorted *)
-Definition enc_tables (x : st) : T :=
+Definition enc_tables (hm : bool) (x : st) : T :=
   let live := x.(clients) in
   Tl [ Tnats live;
        Tl (map (fun p => Tl [Tnat (fst p); Tl (map TN (snd p))])
                (sortb (filter (fun p => mem (fst p) live && negb (isnil (snd p))) x.(bufs))));
        Tnats (map fst (filter (fun p => negb (mem (fst p) live)) x.(bufs)));
-       Tnats x.(closeq); Tnats x.(rd); Tnats x.(wr); Tnats x.(tg); Tnats x.(mp) ].
+       Tnats x.(closeq); Tnats x.(rd); Tnats x.(wr); Tnats x.(tg); Tnats x.(mp);
+       (* which tables hold the listening socket: poller read (4), targets (6), map (7) while it is open *)
+       Tnats (if x.(lis) then [4; 6] ++ (if hm then [7] else []) else []) ].
 
 Definition enc_call (o : out) : list T :=
   match o with
@@ -28,25 +30,30 @@ Definition enc_call (o : out) : list T :=
   | OCall (CSend s n) => [Tl [Tn 1; Tnat s; TN n]]
   | _ => []
   end.
-Definition enc_ev (o : out) : list T :=
+Definition enc_ev (hm : bool) (o : out) : list T :=
   match o with
   | OEv (EConnect s) => [Tl [Tn 0; Tnat s; Tl []]]
   | OEv (ERead s d) => [Tl [Tn 1; Tnat s; Tb d]]
   | OEv (EError s) => [Tl [Tn 2; Tnat s; Tl []]]
   | OEv (EDisconnect s) => [Tl [Tn 3; Tnat s; Tl []]]
-  | OSnap x => [Tl [Tn 4; enc_tables x]]
+  | OSnap x => [Tl [Tn 4; enc_tables hm x]]
+  | OSrv VListenDown => [Tl [Tn 5; Tn 0; Tl []]]
+  | OSrv VClosed => [Tl [Tn 6; Tn 0; Tl []]]
   | OCall _ => []
   end.
 
 Definition obs_server (hm : bool) (h : list stim) : T :=
   let os := snd (run hm h) in
-  Tl [Tl (flat_map enc_call os); Tl (flat_map enc_ev os)].
+  Tl [Tl (flat_map enc_call os); Tl (flat_map (enc_ev hm) os)].
 
-(* error events are not compared on the client side: the property only counts connected / disconnected *)
+(* error events are not compared on the client side: the property only counts connected / disconnected;
+   send() calls are compared as a separate sequence (events are seen later than calls) *)
 Definition enc_cev (e : cev) : list T :=
   match e with
-  | KConnected => [Tl [Tn 0]] | KDisconnected => [Tl [Tn 1]] | KErr => [] | KData d => [Tl [Tn 3; Tb d]]
+  | KConnected => [Tl [Tn 0]] | KDisconnected => [Tl [Tn 1]] | KData d => [Tl [Tn 3; Tb d]] | KErr | KSend _ => []
   end.
+Definition enc_csend (e : cev) : list T := match e with KSend n => [TN n] | _ => [] end.
 Definition obs_client (h : list cstim) : T :=
   let '(x, os) := crun h in
-  Tl [Tl (flat_map enc_cev os); Tbool x.(conn); Tl (map TN x.(pending)); Tbool x.(closeflag)].
+  Tl [Tl (flat_map enc_cev os); Tl (flat_map enc_csend os); Tbool x.(conn); Tl (map TN x.(pending));
+      Tbool x.(closeflag); Tbool x.(sopen)].
